@@ -400,6 +400,30 @@ func checkStmtClosure(c *Ctx, info *types.Info, fkey string, ord int, fl *ast.Fu
 			}
 			return true, "Code[IP] after exactly one advance of IP on every path"
 		}
+		// an explicit target must make progress: it may not be the current IP itself
+		stuck := false
+		targets := []ast.Expr{ix.Index}
+		if id := identOf(ix.Index); id != nil {
+			o := info.Uses[id]
+			ast.Inspect(fl.Body, func(n ast.Node) bool {
+				if as, ok := n.(*ast.AssignStmt); ok && len(as.Lhs) == len(as.Rhs) {
+					for i, l := range as.Lhs {
+						if lid := identOf(l); lid != nil && (info.Uses[lid] == o || info.Defs[lid] == o) {
+							targets = append(targets, as.Rhs[i])
+						}
+					}
+				}
+				return true
+			})
+		}
+		for _, t := range targets {
+			if p.ipTarget(t) == E {
+				stuck = true
+			}
+		}
+		if stuck {
+			return false, "the explicit jump target may be the current IP itself: the same statement would run again"
+		}
 		want := cz.expr(ix.Index)
 		for s := range states {
 			if !(s.set && s.incs == 0 && s.last == want) {
